@@ -508,6 +508,35 @@ def main():
                             broken.append({"name": f"correspondence:{hname}", "ok": False,
                                            "why": f"{len(dis)}/{ncases} cases differ; first: {d['first_diff']}", "replay": rp})
                 corr["harnesses"].append(hinfo)
+    # §1.3 triage: an obligation is broken but no failing input was found yet -> widen the search on the
+    # implementation (more seeds) before reporting no-failing-input-found
+    search = {"ran": False}
+    if (broken or not lean["driver_ok"] or harness_err) and not violations and bins is not None and not replay:
+        search = {"ran": True, "extra_seeds": [], "oracle_failures": 0}
+        for k in (7, 13, 29, 61):
+            sd = seed + k
+            search["extra_seeds"].append(sd)
+            for r in run_harness(pid, cfg, bins, tier, sd, None, None):
+                op = os.path.join(r["outdir"], "oracle.jsonl")
+                if r["rc"] != 0 or not os.path.exists(op):
+                    continue
+                fails = [json.loads(l) for l in open(op) if l.strip()]
+                search["oracle_failures"] += len(fails)
+                byfp = {}
+                for f in fails:
+                    cur = byfp.get(f["fingerprint"])
+                    if cur is None or len(f["ops"]) < len(cur["ops"]):
+                        byfp[f["fingerprint"]] = f
+                for fp, f in sorted(byfp.items()):
+                    if any(kf["fingerprint"] == fp for kf in known):
+                        continue
+                    rp = write_replay(pid, re.sub(r"[^A-Za-z0-9_.-]", "_", fp) + "@" + r["name"] + f"-s{sd}",
+                                      {"property": pid, "kind": "oracle-failure", "fingerprint": fp, "what": f["what"],
+                                       "harness": r["name"], "seed": sd, "tier": tier, "case": f["case"], "ops": f["ops"],
+                                       "impl_observations": f["obs"], "found_by": "widened search after a broken obligation"})
+                    violations.append((fp, f["what"], rp, True))
+            if violations:
+                break
     if harness_err:
         broken.append({"name": "harness", "ok": False, "why": harness_err[-1500:]})
     if not lean["driver_ok"]:
@@ -557,6 +586,7 @@ def main():
             "correspondence": corr,
             "distribution": distribution,
             "known_findings_reported": list(dict.fromkeys(known_lines)),
+            "widened_search": search,
             "exhaustive": False,
         },
         "assumptions": cfg.get("assumptions", []),
